@@ -109,12 +109,12 @@ def run(c):
         if c["kind"] == "as1":
             order = list(c["order"])
             ar = cpl.AsynchronousRule(apply_rule=inner, update_order=order, randomize_each_cycle=bool(c["rand"]))
-            ca = np.array(c["hist"], dtype=np.int32)
+            ca = np.array(c["hist"], dtype=["int32", "uint8", "int64", "int8"][c["seed"] % 4])
             res = cpl.evolve(ca, timesteps=c["T"], apply_rule=ar, r=c["r"])
         else:
             order = [tuple(x) for x in c["order"]]
             ar = cpl.AsynchronousRule(apply_rule=inner, update_order=order, randomize_each_cycle=bool(c["rand"]))
-            ca = np.array(c["hist"], dtype=np.int32)
+            ca = np.array(c["hist"], dtype=["int32", "uint8", "int64", "int8"][c["seed"] % 4])
             res = cpl.evolve2d(ca, timesteps=c["T"], apply_rule=ar, r=c["r"], neighbourhood=ev2.NB[c["nb"]])
         return res, inner, ar, fs
     except Exception as e:  # noqa
